@@ -123,6 +123,8 @@ type Machine struct {
 	varMixed    map[*Term]bool
 	maskOrder   []*Term
 	known       map[*Term]uint64
+	branchSites map[string]int
+	specFails   map[string]int
 	concSample  bool
 	sampledSites map[string]int
 	localDecided int
@@ -476,6 +478,18 @@ func (m *Machine) branch(c *Term) bool {
 	}
 	if len(m.decisions) >= m.maxDecisions {
 		panic(pathAbort{abUnwind, fmt.Sprintf("more than %d symbolic decisions on one path", m.maxDecisions)})
+	}
+	if m.trace {
+		if m.branchSites == nil {
+			m.branchSites = map[string]int{}
+		}
+		w := m.where()
+		if i := strings.Index(w, " < "); i > 0 {
+			if j := strings.Index(w[i+3:], " < "); j > 0 {
+				w = w[:i+3+j]
+			}
+		}
+		m.branchSites[w]++
 	}
 	taken := m.eval(c) == 1
 	other := c
@@ -864,6 +878,27 @@ func (m *Machine) Explore(entry *ssa.Function, opts ExploreOpts) {
 		}
 		for k := range m.reached {
 			m.reachAll[k]++
+		}
+	}
+	if m.trace {
+		type kv struct {
+			k string
+			v int
+		}
+		var kvs []kv
+		for k, v := range m.branchSites {
+			kvs = append(kvs, kv{k, v})
+		}
+		sort.Slice(kvs, func(i, j int) bool { return kvs[i].v > kvs[j].v })
+		for i, e := range kvs {
+			if i < 15 {
+				fmt.Fprintf(os.Stderr, "[branch-site] %6d %s\n", e.v, e.k)
+			}
+		}
+		for k, v := range m.specFails {
+			if v > 50 {
+				fmt.Fprintf(os.Stderr, "[spec-fail] %6d %s\n", v, k)
+			}
 		}
 	}
 	for _, r := range opts.ExpectReach {
